@@ -22,6 +22,11 @@ PtrV(b, o) == [t |-> "p", b |-> b, o |-> o]
 FpV(x) == [t |-> "f", x |-> x]
 LabV(f, l) == [t |-> "l", f |-> f, l |-> l]
 LDiffV(f, a, b) == [t |-> "ld", f |-> f, a |-> a, b |-> b]   \* address of label a minus address of label b (two-label lref item)
+(* value of an integer variable after a 1- or 2-byte store through its address: only the low n bytes are defined.  MIR.md calls it a    *)
+(* "variable treated as 8-bit (16-bit) value"; the engines disagree on the other bytes (the interpreter and -O0/-O1 code keep the old  *)
+(* ones, -O2 code assigns the extension of the stored value), so they are undefined here; after a 4-byte store the h flag says the same *)
+NarrowV(w, n) == [t |-> "nv", w |-> w, n |-> n]
+RegAddrV(fid, r, n) == [t |-> "ra", fid |-> fid, r |-> r, n |-> n]   \* address of variable r of the activation fid (addr insns); n bytes may be accessed
 FnV(f) == [t |-> "fn", f |-> f]                 \* address of function f (a reference operand); never observable as a number
 UndefV == [t |-> "u"]
 Bad(why) == [t |-> "x", why |-> why]
@@ -62,19 +67,60 @@ StoreMem(mem, ty, b, o, v) ==       \* returns [ok, m, why]
   LET n == TySize(ty) IN
   IF ~InBlock(mem, b, o, n) THEN [ok |-> FALSE, m |-> mem, why |-> "store out of bounds or dead block"]
   ELSE IF v.t = "p" /\ n # 8 THEN [ok |-> FALSE, m |-> mem, why |-> "narrow store of a pointer"]
-  ELSE IF v.t \in {"l", "fn", "ld"} THEN [ok |-> FALSE, m |-> mem, why |-> "label or function address stored to memory"]
+  ELSE IF v.t \in {"l", "fn", "ld", "ra"} THEN [ok |-> FALSE, m |-> mem, why |-> "label, function or variable address stored to memory"]
   ELSE LET new == IF IsFpTy(ty) THEN [i \in 1..n |-> FpC(ty, i, v.x)]
                   ELSE IF v.t = "p" THEN [i \in 1..n |-> [k |-> "p", i |-> i, b |-> v.b, o |-> v.o]]
                   ELSE [i \in 1..n |-> IF v.h /\ i > 4 THEN UndefC ELSE ByteC(WordBytes(v.w)[i])]
        IN [ok |-> TRUE, why |-> "",
            m |-> [mem EXCEPT ![b].cells = [j \in 1..mem[b].sz |-> IF j > o /\ j <= o + n THEN new[j - o] ELSE @[j]]]]
 
+(* ---------------- machine state ----------------------------------------- *)
+(* frame: [f, id (unique per activation), pc, regs, base (number of memory blocks when the frame was entered), ovf]     *)
+(* status: "run" | "done" | "undef"                                                                                 *)
+VARIABLES prog, frames, mem, log, status, why, result, steps
+mvars == <<prog, frames, mem, log, status, why, result, steps>>
+
+(* ---------------- variables whose address was taken (addr, addr8, addr16, addr32) ---------------------------------- *)
+(* The variable is then memory of its activation: little-endian bytes of its 64-bit value (or its FP value in the     *)
+(* variable's own format).  An access through the address is defined only at the address itself, with at most the     *)
+(* width the address insn named (so the program means the same on a big-endian target), while the activation exists.                                                *)
+FrameOf(fid) == LET S == {i \in 1..Len(frames) : frames[i].id = fid} IN IF S = {} THEN 0 ELSE CHOOSE i \in S : TRUE
+LoadReg(a, ty) ==
+  LET fi == FrameOf(a.fid) IN
+  IF fi = 0 THEN Bad("address of a variable of a finished activation used")
+  ELSE LET v == frames[fi].regs[a.r]  rty == prog.funcs[frames[fi].f].regty[a.r] IN
+       IF v.t = "u" THEN Bad("read of an unset variable through its address")
+       ELSE IF IsFpTy(ty) \/ rty # "i" THEN (IF ty = rty /\ v.t = "f" THEN v ELSE Bad("variable accessed in another format through its address"))
+       ELSE IF TySize(ty) # a.n THEN Bad("access of another width than the address insn names")
+       ELSE IF TySize(ty) = 8 THEN (IF v.t \in {"i", "p"} THEN v ELSE Bad("undefined bytes, label or function address read through a variable address"))
+       ELSE IF v.t = "nv" THEN (IF TySize(ty) <= v.n THEN IntV(ExtTy(ty, v.w)) ELSE Bad("undefined bytes of a narrow variable read"))
+       ELSE IF v.t # "i" THEN Bad("narrow read of a non-integer variable through its address")
+       ELSE IntV(ExtTy(ty, v.w))
+StoreReg(a, ty, v) ==      \* [ok, fi, v (new value of the variable), why]
+  LET fi == FrameOf(a.fid) IN
+  IF fi = 0 THEN [ok |-> FALSE, why |-> "address of a variable of a finished activation used"]
+  ELSE LET old == frames[fi].regs[a.r]  rty == prog.funcs[frames[fi].f].regty[a.r] IN
+       IF IsFpTy(ty) \/ rty # "i"
+       THEN (IF ty = rty /\ v.t = "f" THEN [ok |-> TRUE, fi |-> fi, v |-> v, why |-> ""]
+             ELSE [ok |-> FALSE, why |-> "variable accessed in another format through its address"])
+       ELSE IF TySize(ty) # a.n THEN [ok |-> FALSE, why |-> "access of another width than the address insn names"]
+       ELSE IF TySize(ty) = 8
+       THEN (IF v.t \in {"i", "p"} THEN [ok |-> TRUE, fi |-> fi, v |-> v, why |-> ""]
+             ELSE [ok |-> FALSE, why |-> "label, function or variable address stored to a variable through its address"])
+       ELSE IF v.t # "i" THEN [ok |-> FALSE, why |-> "narrow store of a non-integer through a variable address"]
+       ELSE LET n == TySize(ty)
+                nb == WordBytes(v.w)
+                w2 == BytesWord([i \in 1..8 |-> IF i <= n THEN nb[i] ELSE 0])
+            IN [ok |-> TRUE, fi |-> fi, v |-> IF n = 4 THEN IntV32(w2) ELSE NarrowV(w2, n), why |-> ""]
+
 (* ---------------- operands ---------------------------------------------- *)
 (* [k |-> "reg", r] | [k |-> "imm", w] | [k |-> "fimm", x] | [k |-> "mem", ty, disp, base, idx, scale] | [k |-> "lab", l] *)
-RegVal(regs, r) == IF regs[r].t = "u" THEN Bad("read of an unset register") ELSE regs[r]
+RegVal(regs, r) == IF regs[r].t = "u" THEN Bad("read of an unset register")
+                   ELSE IF regs[r].t = "nv" THEN Bad("undefined bytes of a narrow variable read") ELSE regs[r]
 Addr(regs, op) ==      \* pointer value of a memory operand or Bad
   LET bv == RegVal(regs, op.base) IN
   IF IsBad(bv) THEN bv
+  ELSE IF bv.t = "ra" THEN (IF op.idx = 0 /\ op.disp = 0 THEN bv ELSE Bad("arithmetic on the address of a variable"))
   ELSE IF bv.t # "p" THEN Bad("memory base is not a pointer")
   ELSE IF op.idx = 0 THEN PtrV(bv.b, bv.o + op.disp)
   ELSE LET iv == RegVal(regs, op.idx) IN
@@ -82,16 +128,22 @@ Addr(regs, op) ==      \* pointer value of a memory operand or Bad
        ELSE IF iv.t # "i" THEN Bad("memory index is not an integer")
        ELSE IF ~(FitsNat(iv.w) /\ ToNat(iv.w) < 4096) THEN Bad("index out of modelled range")
        ELSE PtrV(bv.b, bv.o + op.disp + (ToNat(iv.w) * op.scale))
-Eval(regs, mem, op) ==
+Eval(regs, mm, op) ==
   CASE op.k = "reg" -> RegVal(regs, op.r)
     [] op.k = "imm" -> IntV(op.w)
     [] op.k = "fimm" -> FpV(op.x)
     [] op.k = "ref" -> FnV(op.f)
     [] op.k = "dref" -> PtrV(op.b, 0)                   \* address of a module-level data/bss item (a fixed memory block)
     [] op.k = "blk" -> RegVal(regs, op.r)               \* block argument: the register holds the block's address
-    [] op.k = "mem" -> LET a == Addr(regs, op) IN IF IsBad(a) THEN a ELSE LoadMem(mem, op.ty, a.b, a.o)
+    [] op.k = "mem" -> LET a == Addr(regs, op) IN IF IsBad(a) THEN a ELSE IF a.t = "ra" THEN LoadReg(a, op.ty) ELSE LoadMem(mm, op.ty, a.b, a.o)
 
 (* integer value expected: pointers are not numbers; AsInt needs all 64 bits, AsInt32 only the low half *)
+(* what a sign/zero extension insn sees of its operand: a narrow variable may be read up to its defined width *)
+EvalLow(regs, mm, opnd, nbytes) ==
+  IF opnd.k = "reg" /\ regs[opnd.r].t = "nv"
+  THEN (IF nbytes <= regs[opnd.r].n THEN IntV32(regs[opnd.r].w) ELSE Bad("undefined bytes of a narrow variable read"))
+  ELSE Eval(regs, mm, opnd)
+ExtBytes(o) == CASE o \in {"ext8", "uext8"} -> 1 [] o \in {"ext16", "uext16"} -> 2 [] OTHER -> 4
 AsInt32(v) == IF IsBad(v) THEN v ELSE IF v.t = "i" THEN v ELSE Bad("pointer or non-integer used as a number")
 AsInt(v) == IF IsBad(v) THEN v ELSE IF v.t # "i" THEN Bad("pointer or non-integer used as a number")
             ELSE IF v.h THEN Bad("undefined upper half of a 32-bit result used") ELSE v
@@ -102,11 +154,6 @@ Br32 == {"bts", "bfs", "beqs", "bnes", "blts", "ublts", "bles", "ubles", "bgts",
 ResV(op, w) == IF op \in Ops32 THEN IntV32(w) ELSE IntV(w)
 HiZero(v) == v.t = "i" /\ ~v.h /\ v.w[3] = 0 /\ v.w[4] = 0
 
-(* ---------------- machine state ----------------------------------------- *)
-(* frame: [f, pc, regs, base (number of memory blocks when the frame was entered), dst (caller result operands), ovf]     *)
-(* status: "run" | "done" | "undef"                                                                                 *)
-VARIABLES prog, frames, mem, log, status, why, result, steps
-mvars == <<prog, frames, mem, log, status, why, result, steps>>
 
 Top == frames[Len(frames)]
 Fn(fr) == prog.funcs[fr.f]
@@ -124,6 +171,11 @@ WriteDst(dst, v, pc2, ovf2) ==
        /\ UNCHANGED <<prog, mem, log, status, why, result>>
   ELSE LET a == Addr(Top.regs, dst) IN
        IF IsBad(a) THEN GoUndef(a.why)
+       ELSE IF a.t = "ra"
+       THEN LET r2 == StoreReg(a, dst.ty, v) IN
+            IF ~r2.ok THEN GoUndef(r2.why)
+            ELSE /\ frames' = [SetTop([Top EXCEPT !.pc = pc2, !.ovf = ovf2]) EXCEPT ![r2.fi].regs[a.r] = r2.v]
+                 /\ UNCHANGED <<prog, mem, log, status, why, result>>
        ELSE LET m2 == StoreMem(mem, dst.ty, a.b, a.o, v) IN
             IF ~m2.ok THEN GoUndef(m2.why)
             ELSE /\ mem' = m2.m
@@ -166,7 +218,8 @@ Step ==
             LET v == Eval(R, mem, I.s[1]) IN
             IF IsBad(v) THEN GoUndef(v.why) ELSE WriteDst(I.d, v, nxt, NoOvf)
        [] op \in IntUnary \ {"mov"} ->
-            LET v == IF op \in LowOnly1 THEN AsInt32(Eval(R, mem, I.s[1])) ELSE AsInt(Eval(R, mem, I.s[1])) IN
+            LET v == IF op \in LowOnly1 \ {"negs"} THEN AsInt32(EvalLow(R, mem, I.s[1], ExtBytes(op)))
+                     ELSE IF op \in LowOnly1 THEN AsInt32(Eval(R, mem, I.s[1])) ELSE AsInt(Eval(R, mem, I.s[1])) IN
             IF IsBad(v) THEN GoUndef(v.why) ELSE WriteDst(I.d, ResV(op, Sem1(op, v.w).v), nxt, NoOvf)
        [] op \in IntBinary ->
             LET a == Eval(R, mem, I.s[1])  b == Eval(R, mem, I.s[2]) IN
@@ -240,6 +293,11 @@ Step ==
             ELSE IF ~(FitsNat(a.w) /\ ToNat(a.w) < Len(I.ls)) THEN GoUndef("switch index out of range")
             ELSE Jump(I.ls[ToNat(a.w) + 1])
        [] op = "laddr" -> WriteDst(I.d, LabV(Top.f, I.l), nxt, NoOvf)
+       [] op \in {"addr", "addr8", "addr16", "addr32"} ->
+            LET rty == Fn(Top).regty[I.s[1].r]
+                n == CASE op = "addr8" -> 1 [] op = "addr16" -> 2 [] op = "addr32" -> 4 [] OTHER -> 8 IN
+            IF op # "addr" /\ rty # "i" THEN GoUndef("narrow address insn on a floating point variable")
+            ELSE WriteDst(I.d, RegAddrV(Top.id, I.s[1].r, n), nxt, NoOvf)
        [] op = "jmpi" ->
             LET a == Eval(R, mem, I.s[1]) IN
             IF IsBad(a) THEN GoUndef(a.why)
@@ -264,7 +322,7 @@ Step ==
                  ELSE LET g == prog.funcs[args[2].f] IN
                       /\ log' = Append(log, <<args[1].w, args[3].w>>)
                       /\ frames' = Append(SetTop([Top EXCEPT !.ovf = NoOvf]),
-                                          [f |-> args[2].f, pc |-> 1,
+                                          [f |-> args[2].f, id |-> steps + 1, pc |-> 1,
                                            regs |-> [r \in 1..Len(g.regty) |-> IF r = 1 THEN Narrow(g.params[1], args[3]) ELSE UndefV],
                                            base |-> Len(mem), ovf |-> NoOvf])
                       /\ UNCHANGED <<mem, status, why, result>>
@@ -286,7 +344,7 @@ Step ==
                  IF Len(frames) >= 12 THEN GoUndef("call depth bound")
                  ELSE IF blkbad THEN GoUndef("block argument is not the address of a live 16-byte block")
                  ELSE /\ frames' = Append(SetTop([Top EXCEPT !.ovf = NoOvf]),
-                                          [f |-> cf, pc |-> 1,
+                                          [f |-> cf, id |-> steps + 1, pc |-> 1,
                                            regs |-> [r \in 1..Len(g.regty) |->
                                                        IF r = bv THEN PtrV(Len(mem) + 1, 0)     \* the callee sees its own copy
                                                        ELSE IF r <= Len(g.params) THEN Narrow(g.params[r], args[r]) ELSE UndefV],
